@@ -247,6 +247,11 @@ def check_program(p):
         if any(any(f in x for x in lit_texts) for f in frags):
             out.append(("residue", "value %r is still inline in %r" % (pyval, s_par)))
             break
+    def _has_enum(v):
+        return isinstance(v, enum.Enum) or (isinstance(v, (list, tuple)) and any(_has_enum(x) for x in v)) or (isinstance(v, dict) and any(_has_enum(x) for x in v.values()))
+
+    if any(_has_enum(v) for v in vals):
+        out.append(("exempt_parameterised", "an enum member (inline by contract) travels in the parameter list %r of %r" % (vals, s_par)))
     for kind, node in p.get("markers", []):
         if kind in EXEMPT:
             frags = {"enum": None, "star": "*", "vwnp": node[1][1] if kind == "vwnp" else None}[kind]
@@ -300,6 +305,9 @@ def slot_templates():
     t["array_values"] = (2, lambda h: ["array", [h[0][1], h[1][1]]])
     t["array_mixed"] = (2, lambda h: ["array", [["add", A_, h[0]], h[1][1]]])
     t["array_column"] = (1, lambda h: ["array", [A_, h[0][1]]])
+    # an enum member (inline by contract) among the elements: the array cannot travel as one parameter with the member inside
+    t["array_enum_member"] = (1, lambda h: ["array", [["enum", "Order", "asc"], h[0][1]]])
+    t["arraynested_enum_member"] = (1, lambda h: ["array", [["pylist", [["enum", "Order", "desc"], h[0][1]]]]])
     t["arraynested_column"] = (2, lambda h: ["array", [["pylist", [h[0][1], A_]], ["pylist", [h[1][1], ["raw", 3]]]]])
     t["fnextract_value_part"] = (2, lambda h: ["fn", "Extract", [h[0], ["add", A_, h[1]]]])
     t["tuple_in"] = (4, lambda h: ["in", ["tuple", [["add", A_, h[0]], h[1]]], [["tuple", [h[2], h[3]]]]])
